@@ -825,3 +825,13 @@ package server
 //@ releaseslock
 //@ modifies *
 //@ note trusted body (streams, channels, select): only the structural obligation is checked
+
+// C16: every key the sequence waiter hands over is forwarded to the subscriber's stream (Send with
+// a response built around that key) before the loop takes the next one or the call ends; only a
+// closed waiter channel ends the loop without a Send. Structural clause on the SSA form: the body
+// (a select loop) is outside the executed subset and otherwise trusted.
+//@ func publicRpcServer.GetSequenceUpdates(s, req, stream) (err)
+//@ property C16
+//@ trusted
+//@ received Ch() handledby Send
+//@ modifies *
